@@ -50,20 +50,21 @@ PROP = {
     "rule": ("sitescan: one case per `range`-over-map / call of a map-ordered-slice producer / time.Now / math|crypto rand / go / select / float site that go/types finds in "
              "x/**, app, app/ante/**, precompiles/**, utils, types/** of the current tree (covered = listed in coq/C08/sites.txt with the same "
              "statement+function fingerprint and a lemma of Props.v or a benign reason). "
-             "sites: 6 families x n/6 generated inputs (small id universes so that keys collide, ties, boundary heights exactly on / one off the "
+             "sites: 7 families x n/7 generated inputs (small id universes so that keys collide, ties, boundary heights exactly on / one off the "
              "nonce window and the feeder end block, uint64 wrap) run through the real Difference, GroupTasksByIDAndAddress, BigIntList.Median, "
-             "Cache.AddCache/GetCache, SetValidatorPowers/GetValidators, PrepareRoundEndBlock+SealRound(x2) and compared with the Gallina site model. "
+             "Cache.AddCache/GetCache, SetValidatorPowers/GetValidators, PrepareRoundEndBlock+SealRound(x2), RemoveNonceWithFeederIDForAll on ordered nonce rows of a real store, and compared with the Gallina site model. "
              "determ: each case = (seed, 30-block script [thorough: 120]) with 2-7 operations per block out of: signed bank send, EVM value transfer (dynamic-fee MsgEthereumTx), signed oracle "
              "create-price by one or both validators (inside and outside the nonce window, agreeing or not: final price, forced seal on validator-set "
              "change, failed round), RegisterOperator, OptIntoAVS, LST deposit / delegate / undelegate of two assets by six stakers (ties in staker "
              "power, incl. two tail stakers with equal value through different assets), dogfood slash, tasks of two extra AVSs (different assets / operator sets, real OptIn) whose statistical "
              "periods end in the same epoch; one price round in three is left unanswered; oracle UpdateParams (MaxSizePrices, new tokens with unanswered feeders), dogfood UpdateParams (MaxValidators), AVS challenge records; block times 5s..7d so that minute/hour/day/week epochs end (fee distribution to stakers every minute epoch, "
              "voting-power update and validator-set change at day epochs, undelegation maturity); executed by 3 [thorough: 5] SEPARATE processes "
-             "with GOMAXPROCS 1,2,4[,3,8], the last of which re-creates the oracle's memory from the store (C14 restart hook) at seed-drawn "
+             "with GOMAXPROCS 1,2,4[,3,8]; process 1 additionally serves Simulate + CheckTx for every signed tx before its DeliverTx (node-local traffic); "
+             "six extra unanswered oracle feeders with staggered starts make several rounds seal in the same EndBlock; the last process re-creates the oracle's memory from the store (C14 restart hook) at seed-drawn "
              "heights after a quiet window (~3 restarts per case, biased to the end of a submission window); plus one directed regression scenario (unpriced AVS asset, failing OptIntoAVS). distinct = sha1 of the "
              "whole case line; non-trivial = all cases (every script changes state in every block)."),
     "explanation": ("A Gallina function is deterministic by construction, so the theorems are about the places where Go injects a schedule into "
-                    "consensus code: every range over a map is modelled as a fold over a list whose order is the schedule, and 38 theorems state "
+                    "consensus code: every range over a map is modelled as a fold over a list whose order is the schedule, and 41 theorems state "
                     "for ALL permutations that what reaches the store / ABCI response is the same (writes to distinct keys as finite maps, "
                     "additive updates, lists compared after the code's sort, early-exit loops incl. their read count), or refute it with a witness "
                     "where it is false (returned slices of SealRound, deleted keys / leftover variable in recache, unstable sort with ties, early "
